@@ -198,6 +198,7 @@ package cache
 //@   ensures cacheInv(c)
 
 //@ func (*xsyncMap).GetAndDelete
+//@   serves C13
 //@   requires cacheInv(c)
 //@   reenters cacheInv(c)
 //@   let P = old(view(c.items))
@@ -214,6 +215,7 @@ package cache
 //@   ensures cacheInv(c)
 
 //@ func (*xsyncMap).Delete
+//@   serves C13
 //@   requires cacheInv(c)
 //@   reenters cacheInv(c)
 //@   let P = old(view(c.items))
@@ -227,6 +229,7 @@ package cache
 //@   ensures {C06} post.firedwith: cbpure && fires ==> cbf(ec, n0) == ec && cba(ec, n0, 0) == k && cba(ec, n0, 1) == IV(val(o))
 //@   ensures cacheInv(c)
 //@ func (*xsyncMap).DeleteExpired
+//@   serves C13
 //@   requires cacheInv(c)
 //@   reenters cacheInv(c)
 //@   let P = old(view(c.items))
@@ -263,6 +266,7 @@ package cache
 //@ define liveMap(P, t) = lambda q: string :: ite(live(P[q], t), some(IV(val(P[q]))), none)
 
 //@ func (*xsyncMap).Range
+//@   serves C13
 //@   requires cacheInv(c)
 //@   reenters cacheInv(c)
 //@   let P = old(view(c.items))
@@ -286,6 +290,7 @@ package cache
 //@   ensures cacheInv(c)
 
 //@ func (*xsyncMap).Items
+//@   serves C13
 //@   requires cacheInv(c)
 //@   lp none
 //@   let P = old(view(c.items))
@@ -557,6 +562,7 @@ package cache
 //@   ensures cacheInvOf(c)
 
 //@ func (*xsyncMapOf[K, V]).GetAndDelete
+//@   serves C13
 //@   requires cacheInvOf(c)
 //@   reenters cacheInvOf(c)
 //@   let P = old(view(c.items))
@@ -573,6 +579,7 @@ package cache
 //@   ensures cacheInvOf(c)
 
 //@ func (*xsyncMapOf[K, V]).Delete
+//@   serves C13
 //@   requires cacheInvOf(c)
 //@   reenters cacheInvOf(c)
 //@   let P = old(view(c.items))
@@ -586,6 +593,7 @@ package cache
 //@   ensures {C06} post.firedwith: cbpure && fires ==> cbf(ec, n0) == ec && cba(ec, n0, 0) == k && cba(ec, n0, 1) == IVOf(val(o))
 //@   ensures cacheInvOf(c)
 //@ func (*xsyncMapOf[K, V]).DeleteExpired
+//@   serves C13
 //@   requires cacheInvOf(c)
 //@   reenters cacheInvOf(c)
 //@   let P = old(view(c.items))
@@ -622,6 +630,7 @@ package cache
 //@ define liveMapOf(P, t) = lambda q: K :: ite(liveOf(P[q], t), some(IVOf(val(P[q]))), none)
 
 //@ func (*xsyncMapOf[K, V]).Range
+//@   serves C13
 //@   requires cacheInvOf(c)
 //@   reenters cacheInvOf(c)
 //@   let P = old(view(c.items))
@@ -645,6 +654,7 @@ package cache
 //@   ensures cacheInvOf(c)
 
 //@ func (*xsyncMapOf[K, V]).Items
+//@   serves C13
 //@   requires cacheInvOf(c)
 //@   lp none
 //@   let P = old(view(c.items))
